@@ -267,7 +267,9 @@ class Disk:
                 st_ = os.lstat(self.p(r))
                 h = hidden or any(fnmatch(pt, nm) for pt in patterns)
                 if stat.S_ISLNK(st_.st_mode):
-                    rec = ("l", st_.st_size, st_.st_mtime_ns, st_.st_mode, os.readlink(self.p(r)))
+                    # llbuild observes entries with stat(), which follows links: a dangling link (the only
+                    # kind generated) is a *missing* file whatever its own mtime or target string
+                    rec = ("l", 0, 0, 0, "")
                 elif stat.S_ISDIR(st_.st_mode):
                     rec = ("d", 0, 0, 0, "")
                 else:
